@@ -11,6 +11,8 @@ import (
 	"zvh/engines/heap"
 	"zvh/engines/robust"
 	"zvh/engines/report"
+	"zvh/engines/alter"
+	"zvh/engines/snapshot"
 	"zvh/engines/seq"
 	"zvh/engines/store"
 )
@@ -20,6 +22,9 @@ func init() {
 		ownsReplay[n] = true
 	}
 	engines["seq"] = seq.Engine{}
+	engines["snapshot"] = snapshot.Engine{}
+	ownsReplay["alter"] = true
+	engines["alter"] = alter.Engine{}
 	engines["report"] = report.Engine{}
 	engines["robust"] = robust.Engine{}
 	engines["heap"] = heap.Engine{}
